@@ -47,7 +47,13 @@ package bookkeeping
 //     next protocol set/cleared/changed, approvals +-1, vote-before +-1, switch-on +-1, propose
 //     set/cleared, delay +-1, approve flipped) is accepted by PreCheck iff the oracle says the
 //     mutated (vote, state) pair is itself consistent with the facts (only happens for the
-//     delay 0 <-> default equivalence in regime w02; counted in the evidence).
+//     delay 0 <-> default equivalence in regime w02; counted in the evidence);
+//   * stale states: for every reached (prev header, vote of the alphabet) the header carrying that vote
+//     together with (a) the previous header's UpgradeState unchanged, (b) the UpgradeState of every
+//     earlier header on the path, (c) the state any OTHER legal vote of the alphabet would announce,
+//     is accepted by PreCheck iff the oracle finds the pair consistent — in particular "no vote +
+//     unchanged state" must be rejected at the deadline round of a failed proposal and at the switch
+//     round, where the round-driven transition is mandatory (seeded change C26-B).
 //
 // Not covered: vote windows other than 3/2, switching *to* an unsupported version is followed
 // only up to the switch block (PreCheck must reject it as unsupported; MakeBlock is not called
@@ -60,6 +66,8 @@ package bookkeeping
 //   M2 approval deadline `r > s.NextProtocolVoteBefore`                   (illegal-vote-accepted:approve-at-deadline)
 //   M3 ProcessUpgradeParams approving while `round <= VoteBefore` (own)   (MakeBlock panics at the deadline round of an approved-upgrade config)
 //   M4 PreCheck comparing the UpgradeState without the approvals count (own) (mutation:approvals+1 accepted)
+// Seeded changes by independent agents: C26-A DETECTED; C26-B (PreCheck 'nothing to replay' fast path for
+// empty vote + unchanged state) MISSED by the first version, DETECTED since the stale-state check.
 
 import (
 	"fmt"
@@ -123,6 +131,8 @@ type c26st struct {
 	halted bool        // chain switched to an unsupported version
 	r      *ve.Run
 	ops    []c26op
+	hist   []UpgradeState // UpgradeState of every earlier header on the path (stale-state candidates)
+	tmpl   *BlockHeader   // MakeBlock(prev) template, computed once per prev
 }
 
 func (c *c26cfg) supported(v protocol.ConsensusVersion) bool { return v == c.a || v == c.b }
@@ -243,16 +253,20 @@ func (s *c26st) headerFor(vote UpgradeVote, us UpgradeState) BlockHeader {
 	if s.cfg.supported(us.CurrentProtocol) {
 		// template from the real constructor (it never panics here: its own vote is legal
 		// whenever the chain is on a supported version), then our vote/state
-		var h BlockHeader
-		func() {
-			defer func() {
-				if e := recover(); e != nil {
-					h = s.manualHeader()
-				}
+		if s.tmpl == nil {
+			var h BlockHeader
+			func() {
+				defer func() {
+					if e := recover(); e != nil {
+						h = s.manualHeader()
+					}
+				}()
+				h = MakeBlock(s.prev).BlockHeader
 			}()
-			h = MakeBlock(s.prev).BlockHeader
-		}()
-		h.TimeStamp = 0
+			h.TimeStamp = 0
+			s.tmpl = &h
+		}
+		h := *s.tmpl
 		h.UpgradeVote = vote
 		h.UpgradeState = us
 		return h
@@ -261,6 +275,61 @@ func (s *c26st) headerFor(vote UpgradeVote, us UpgradeState) BlockHeader {
 	h.UpgradeVote = vote
 	h.UpgradeState = us
 	return h
+}
+
+// advance records the accepted header h as the new tip.
+func (s *c26st) advance(h BlockHeader, ledger []c26entry) {
+	s.hist = append(append([]UpgradeState{}, s.hist...), s.prev.UpgradeState)
+	s.prev = h
+	s.ledger = ledger
+	s.tmpl = nil
+}
+
+// staleCheck: a header for this round carrying `vote` together with an UpgradeState that is NOT
+// the result of this round's transition — the previous header's state carried over unchanged, the
+// state of any earlier header on the path, or the state that some OTHER legal vote of the alphabet
+// would announce — must be accepted by PreCheck iff the oracle finds the pair consistent (which
+// only happens when the candidate coincides with the correct next state). This is what catches
+// "no vote + unchanged state" being waved through at the deadline / switch round, where the
+// round-driven transition (clear the failed proposal, switch the protocol) is mandatory.
+func (s *c26st) staleCheck(f c26facts, r basics.Round, vote UpgradeVote, ph, opname string) error {
+	type cand struct {
+		us  UpgradeState
+		why string
+	}
+	var cands []cand
+	seen := map[UpgradeState]bool{}
+	add := func(us UpgradeState, why string) {
+		if !seen[us] {
+			seen[us] = true
+			cands = append(cands, cand{us, why})
+		}
+	}
+	add(s.prev.UpgradeState, "prev-state-carried-over")
+	for i := len(s.hist) - 1; i >= 0; i-- {
+		add(s.hist[i], "earlier-header-state")
+	}
+	for _, w := range s.ops {
+		if w.honest {
+			continue
+		}
+		if ok, _ := c26legal(s.cfg, f, r, w.vote); ok {
+			add(c26announced(c26derive(s.cfg, append(append([]c26entry{}, s.ledger...), c26entry{r, w.vote}))), "state-of-other-vote")
+		}
+	}
+	for _, cd := range cands {
+		h := s.headerFor(vote, cd.us)
+		exp := s.oracleAccepts(f, h)
+		got := h.PreCheck(s.prev) == nil
+		s.r.Eval()
+		if cd.why != "state-of-other-vote" || exp {
+			s.r.Class(fmt.Sprintf("%s|stale|%s|%s|oracle=%v", s.cfg.name, ph, cd.why, exp))
+		}
+		if got != exp {
+			return ve.Violationf("C26:stale-state:"+cd.why, "round %d phase %s op %s: header with vote %+v and UpgradeState %+v (%s) -> PreCheck accepted=%v, oracle says %v (previous header state %+v)", r, ph, opname, vote, cd.us, cd.why, got, exp, s.prev.UpgradeState)
+		}
+	}
+	return nil
 }
 
 func (s *c26st) manualHeader() BlockHeader {
@@ -356,6 +425,9 @@ func (s *c26st) apply(opi int) (bool, error) {
 	if op.honest && !legal {
 		return true, ve.Violationf("C26:honest-illegal", "MakeBlock voted %+v in phase %s, which the rules forbid (%s)", vote, ph, why)
 	}
+	if serr := s.staleCheck(f, r, vote, ph, op.name); serr != nil {
+		return true, serr
+	}
 	ns, err := s.prev.UpgradeState.applyUpgradeVote(r, vote)
 	s.r.Class(fmt.Sprintf("%s|%s|%s|%s", c.name, ph, op.name, why))
 	if !legal {
@@ -411,8 +483,7 @@ func (s *c26st) apply(opi int) (bool, error) {
 			return true, ve.Violationf("C26:unsupported-accepted", "round %d: header switching to unsupported %q passes PreCheck", r, ns.CurrentProtocol)
 		}
 		s.halted = true
-		s.ledger = ledger
-		s.prev = h
+		s.advance(h, ledger)
 		return true, nil
 	}
 	if perr != nil {
@@ -432,8 +503,7 @@ func (s *c26st) apply(opi int) (bool, error) {
 			return true, ve.Violationf("C26:mutation:"+names[i], "round %d phase %s vote %+v: mutation %s of the accepted header -> PreCheck accepted=%v, oracle says %v (state %+v vote %+v)", r, ph, vote, names[i], got, exp, m.UpgradeState, m.UpgradeVote)
 		}
 	}
-	s.prev = h
-	s.ledger = ledger
+	s.advance(h, ledger)
 	return true, nil
 }
 
@@ -552,6 +622,8 @@ func TestVerif_C26(t *testing.T) {
 				Clone: func(s *c26st) *c26st {
 					n := *s
 					n.ledger = append([]c26entry{}, s.ledger...)
+					n.hist = append([]UpgradeState{}, s.hist...)
+					n.tmpl = nil
 					return &n
 				},
 				Apply:    func(s *c26st, op int) (bool, error) { return s.apply(op) },
